@@ -56,6 +56,21 @@ theorem attributePrefixByNamespace_none {info : List (Nat × Nat)} {ns : Nat}
   have := List.find?_eq_none.mp h p ((mem_prefixesByNamespace info ns p).mpr hm)
   simp [hp] at this
 
+/-- `has_default_namespace` on a flattened scope: the nearest declaration of the empty prefix binds
+    it to a namespace other than the no-namespace id. -/
+theorem hasDefaultNamespace_iff {s : FStack} {fs : Frames} (hf : Flat s.top fs) :
+    s.hasDefaultNamespace = true ↔
+      ∃ n, lookupFrames fs Env.emptyPrefix = some n ∧ n ≠ Env.noNamespace := by
+  unfold FStack.hasDefaultNamespace
+  rw [List.any_eq_true]
+  constructor
+  · rintro ⟨⟨p, n⟩, hm, hc⟩
+    simp only [Bool.and_eq_true, beq_iff_eq, bne_iff_ne, ne_eq] at hc
+    obtain ⟨rfl, hn⟩ := hc
+    exact ⟨n, (hf.2 _ _).mp hm, hn⟩
+  · rintro ⟨n, hl, hn⟩
+    exact ⟨(Env.emptyPrefix, n), (hf.2 _ _).mpr hl, by simp [hn]⟩
+
 /-! ### `namespace_traverse` yields each prefix once -/
 
 /-- What one pass over a declaration list guarantees: `seen` only grows, every yielded prefix is
